@@ -35,7 +35,7 @@ ASSUMPTIONS = ['an Update/Remove addressed to a negative row id nobody created i
                'clean-up of references to rows removed inside the bundle follows the documented C10 behaviour (Ref -> 0, RefList '
                'without the id, None when empty); no two-way reference columns',
                'updates/removals never address a row that was removed earlier in the bundle or an unknown positive id']
-BUDGET = {'quick': dict(examples=3000, shards=12, max_seconds=36),
+BUDGET = {'quick': dict(examples=3000, shards=12, max_seconds=32),
           'thorough': dict(examples=60000, shards=16, max_seconds=420)}
 SHRINK_BUDGET = {'quick': 120, 'thorough': 400}
 
